@@ -129,7 +129,7 @@ def gen_cases(tier, seed):
         srcs.append((c['shape'], c['src']))
     for c in scopegen.sampled_cases(seed + 2, 300 if tier == 'quick' else 8000):
         srcs.append((c['shape'], c['src']))
-    for i in range(120 if tier == 'quick' else 3000):
+    for i in range(120 if tier == 'quick' else 1200):
         s, _ = modgen.generate(seed, 80000 + i, guarded=(i % 2 == 0), size=8 + (i % 3) * 5)
         srcs.append(('modgen', s))
     for shape, s in srcs:
